@@ -1,7 +1,9 @@
 """Reference model for C09: an insertion-ordered, case-insensitive,
 case-preserving mapping kept as a plain Python list of [key, value] pairs.
-Independent of the repository (no import of debian.*).  Keys are ASCII, so
-``str.lower`` is the whole of "case-insensitive" here.
+Independent of the repository (no import of debian.*).  Keys are ASCII or
+belong to the class the C09 module admits at import time (simple_case_name:
+one-to-one lower/upper pairs, ``str.casefold() == str.lower()``, no context
+rules, NFC), so ``str.lower`` is the whole of "case-insensitive" here.
 """
 
 
